@@ -35,14 +35,14 @@ class RealFS:
 class World:
     """One data directory, several configs (same pipeline, different parameter values), chains built on demand."""
 
-    def __init__(self, spec, configs, namespace=None):
+    def __init__(self, spec, configs, namespace=None, real_root=None):
         self.spec = spec
         self.configs = configs            # list of value dicts
         self.namespace = namespace
         if _rp.MODE['replay']:
             import tempfile
-            self.fs = RealFS(tempfile.mkdtemp(dir=_rp.MODE['tmp']))
-            self.fs.path('/data').mkdir(parents=True)
+            self.fs = RealFS(real_root or tempfile.mkdtemp(dir=_rp.MODE['tmp']))
+            self.fs.path('/data').mkdir(parents=True, exist_ok=True)
         else:
             self.fs = mfs.FS()
             self.fs.path('/data').mkdir(parents=True)
